@@ -78,6 +78,14 @@ func singlePerturbations(m *ophosttypes.MsgFinalizeTokenWithdrawal, cx c03Ctx) [
 		perturbation{"storage_root.trailing_byte", func(m *ophosttypes.MsgFinalizeTokenWithdrawal) { m.StorageRoot = append(m.StorageRoot, 0) }},
 		perturbation{"block_hash.trailing_byte", func(m *ophosttypes.MsgFinalizeTokenWithdrawal) { m.LastBlockHash = append(m.LastBlockHash, 0) }},
 		perturbation{"version.two_bytes", func(m *ophosttypes.MsgFinalizeTokenWithdrawal) { m.Version = append(m.Version, 0) }},
+		// a field dropped altogether (absent on the wire) or cut short
+		perturbation{"storage_root.empty", func(m *ophosttypes.MsgFinalizeTokenWithdrawal) { m.StorageRoot = nil }},
+		perturbation{"storage_root.31_bytes", func(m *ophosttypes.MsgFinalizeTokenWithdrawal) { m.StorageRoot = m.StorageRoot[:31] }},
+		perturbation{"block_hash.empty", func(m *ophosttypes.MsgFinalizeTokenWithdrawal) { m.LastBlockHash = nil }},
+		perturbation{"block_hash.31_bytes", func(m *ophosttypes.MsgFinalizeTokenWithdrawal) { m.LastBlockHash = m.LastBlockHash[:31] }},
+		perturbation{"version.empty", func(m *ophosttypes.MsgFinalizeTokenWithdrawal) { m.Version = nil }},
+		perturbation{"from.empty", func(m *ophosttypes.MsgFinalizeTokenWithdrawal) { m.From = "" }},
+		perturbation{"sequence.zero", func(m *ophosttypes.MsgFinalizeTokenWithdrawal) { m.Sequence = 0 }},
 		perturbation{"storage_root.short", func(m *ophosttypes.MsgFinalizeTokenWithdrawal) { m.StorageRoot = m.StorageRoot[:31] }},
 		perturbation{"amount+2*2^64", func(m *ophosttypes.MsgFinalizeTokenWithdrawal) {
 			m.Amount.Amount = m.Amount.Amount.Add(math.NewIntFromUint64(1 << 63).MulRaw(4))
